@@ -162,6 +162,7 @@ Inductive op :=
 | OSetUnknown (r : pval) (u : list byte)
 | OIsValid (r : pval)
 | ONew (mid : nat)                            (* new(T).ProtoReflect() *)
+| ONil (mid : nat)                            (* ProtoReflect of a typed nil pointer, MessageType.Zero: the read-only empty message *)
 (* protoreflect.List methods *)
 | OLLen (r : pval)
 | OLGet (r : pval) (i : Z)
@@ -254,6 +255,7 @@ Section Step.
   Definition step (h : heap) (o : op) : heap * pval :=
     match o with
     | ONew mid => let (h', id) := halloc h (HObj (new_obj sch mid)) in (h', PMsg mid (Some id))
+    | ONil mid => (h, PMsg mid None)
 
     | OHas (PMsg mid p) f =>
       match field_of mid f, recv_obj h mid p with
